@@ -32,13 +32,13 @@ class C02(ContCheck):
 
     def gen(self, tier, rng):
         cases = []
-        nrand = 2500 if tier == 'quick' else 60000
+        nrand = 6000 if tier == 'quick' else 100000
         for _ in range(nrand):
             cases += all_classes('list', contlib.list_history(rng))
         # longer lists: from-the-tail walks of the dlinked class need len >= 5
         for _ in range(nrand // 10):
             cases += all_classes('list', contlib.list_history(rng, maxops=25, keys=['a', 'b']))
-        depth = 3 if tier == 'quick' else 5
+        depth = 4 if tier == 'quick' else 5
         ex = contlib.list_exhaustive(depth)
         self.exhaustive_note = ('all %d sequences of %d symbolic list operations (alphabet of %d, indices relative to the '
                                 'current length, keys a/b), on three classes' % (len(ex), depth, len(contlib.LIST_SYMBOLS)))
